@@ -978,35 +978,47 @@ def replay_shave(r):
         import nucs.solvers.shaving_consistency_algorithm as SH
 
         height, top, bound, a, b = r.get("height", 5), r["top"], r["bound"], r["a"], r["b"]
-        rng = np.random.RandomState(7)
-        stack = rng.randint(-50, 50, size=(height, 2, 2)).astype(np.int32)
-        ne = rng.randint(0, 2, size=(height, 2)).astype(bool)
-        ne[top] = True
-        du = np.zeros((height, 2), dtype=np.uint16)
-        st = np.array([top], dtype=np.uint8)
-        stack[top, 0] = (a, b)
-        before, ne_before = stack.copy(), ne.copy()
-        trig = np.zeros(2, dtype=bool)
-        real = SH.bound_consistency_algorithm
-        SH.bound_consistency_algorithm = lambda *args: r["bc_status"]
-        try:
-            shaved = bool(SH.shave_bound(bound, 0, np.zeros(13, dtype=np.int64), None, None, None, None, None, None, None, None, np.array(r["watchers"], dtype=np.uint8), stack, ne, du, st, trig, None, None))
-        finally:
-            SH.bound_consistency_algorithm = real
         fails = set()
-        if int(st[0]) != top:
-            fails.add("stack-height-changed")
-        if shaved != (r["bc_status"] == 0):
-            fails.add("refutation-verdict-differs-from-propagation-status")
-        want = [a + 1, b] if (shaved and bound == 0) else ([a, b - 1] if shaved else [a, b])
-        if stack[top, 0].tolist() != want or (stack[top, 1] != before[top, 1]).any() or (ne[top] != ne_before[top]).any() or (stack[:top] != before[:top]).any():
-            fails.add("level-below-not-as-specified" if shaved else "undo-does-not-restore-the-level")
-        if shaved:
-            need = (1 if bound == 0 else 2) | (4 if want[0] == want[1] else 0)
-            for p in range(2):
-                if (r["watchers"][0][p] & need) and not trig[p]:
-                    fails.add("shaved-bound-not-announced-to-its-watchers")
-        return kind in fails, f"failures={sorted(fails)} level={stack[top].tolist()} queue={trig.tolist()}"
+        info = []
+        # two passes that respect the contract the lemma assumes: one changes nothing, one also declares every constraint
+        # entailed at the level it runs on (what a real pass does before it fails or succeeds further on)
+        for clear_flags in (False, True):
+            rng = np.random.RandomState(7)
+            stack = rng.randint(-50, 50, size=(height, 2, 2)).astype(np.int32)
+            ne = rng.randint(0, 2, size=(height, 2)).astype(bool)
+            ne[top] = True
+            du = np.zeros((height, 2), dtype=np.uint16)
+            st = np.array([top], dtype=np.uint8)
+            stack[top, 0] = (a, b)
+            before, ne_before = stack.copy(), ne.copy()
+            trig = np.zeros(2, dtype=bool)
+            real = SH.bound_consistency_algorithm
+
+            def stub(*args, _c=clear_flags):
+                if _c:
+                    ne_, st_ = args[11], args[13]
+                    ne_[int(st_[0]), :] = False
+                return r["bc_status"]
+
+            SH.bound_consistency_algorithm = stub
+            try:
+                shaved = bool(SH.shave_bound(bound, 0, np.zeros(13, dtype=np.int64), None, None, None, None, None, None, None, None, np.array(r["watchers"], dtype=np.uint8), stack, ne, du, st, trig, None, None))
+            finally:
+                SH.bound_consistency_algorithm = real
+            if int(st[0]) != top:
+                fails.add("stack-height-changed")
+            if shaved != (r["bc_status"] == 0):
+                fails.add("refutation-verdict-differs-from-propagation-status")
+            want = [a + 1, b] if (shaved and bound == 0) else ([a, b - 1] if shaved else [a, b])
+            if stack[top, 0].tolist() != want or (stack[top, 1] != before[top, 1]).any() or (ne[top] != ne_before[top]).any() or (stack[:top] != before[:top]).any():
+                fails.add("level-below-not-as-specified" if shaved else "undo-does-not-restore-the-level")
+            if shaved:
+                need = (1 if bound == 0 else 2) | (4 if want[0] == want[1] else 0)
+                for p in range(2):
+                    if (r["watchers"][0][p] & need) and not trig[p]:
+                        fails.add("shaved-bound-not-announced-to-its-watchers")
+            info.append(f"pass clears the flags of its level={clear_flags}: level={stack[top].tolist()} queue={trig.tolist()}")
+        return kind in fails, f"failures={sorted(fails)} {info}"
     addrs = BS.get_function_addresses()[0]
 
     def mk():
